@@ -625,14 +625,14 @@ class Form(BaseForm):
         from ufl.domain import join_domains, sort_domains
 
         # Collect integration domains.
-        self._integration_domains = sort_domains(
+        integration_domains = sort_domains(
             join_domains([itg.ufl_domain() for itg in self._integrals])
         )
         # Collect domains in extra_domain_integral_type_map.
         domains_in_extra_domain_integral_type_map = join_domains(
             [d for itg in self._integrals for d in itg.extra_domain_integral_type_map()]
         )
-        domains_in_extra_domain_integral_type_map -= set(self._integration_domains)
+        domains_in_extra_domain_integral_type_map -= set(integration_domains)
         # Collect domains in integrands.
         domains_in_integrands = set()
         for o in chain(
@@ -640,10 +640,13 @@ class Form(BaseForm):
         ):
             domain = extract_unique_domain(o, expand_mesh_sequence=False)
             domains_in_integrands.update(domain.meshes)
-        domains_in_integrands -= set(self._integration_domains)
-        all_domains = self._integration_domains + sort_domains(
+        domains_in_integrands -= set(integration_domains)
+        all_domains = integration_domains + sort_domains(
             join_domains(domains_in_extra_domain_integral_type_map | domains_in_integrands)
         )
+        # Store the results only now that nothing above can fail any more: a
+        # form whose analysis raises must raise again on the next request
+        self._integration_domains = integration_domains
         # Let problem solving environments access all domains via
         # self._domain_numbering.keys() (wrapped in extract_domains()).
         self._domain_numbering = {d: i for i, d in enumerate(all_domains)}
